@@ -143,7 +143,7 @@ def main(chk: Check) -> None:
             else st.just(list(range(len(HTTP_CFGS)))),
         }
     )
-    chk.explore("programs", strat, run_case, quick=160, thorough=1600)
+    chk.explore("programs", strat, run_case, quick=400, thorough=3200)
     # a real worker process (python startup ≈ 0.5 s per program): a few in quick, more in thorough
     sub = st.fixed_dictionaries(
         {"spec": programs.program_specs(), "http_idx": st.just([0]), "subprocess": st.just(True)}
